@@ -399,7 +399,7 @@ func oracleC03(e *Env, st *OracleState, i int, op *Op, res string) *Violation {
 		if (d.Off < h.DataOff || d.Off+d.Size > h.DataOff+h.DataSize || d.Size < 0) && !st.afterFault {
 			return &Violation{Prop: "C03", Key: "C03:outside-data-section", What: fmt.Sprintf("object %d [%d,+%d) outside data section [%d,+%d)", d.ID, d.Off, d.Size, h.DataOff, h.DataSize), Op: i}
 		}
-		if d.Size > 0 && d.Off+d.Size > int64(len(b)) {
+		if d.Size > 0 && d.Off+d.Size > int64(len(b)) && !st.afterFault {
 			return &Violation{Prop: "C03", Key: "C03:outside-file", What: fmt.Sprintf("object %d [%d,+%d) beyond file length %d", d.ID, d.Off, d.Size, len(b)), Op: i}
 		}
 		if d.Size > 0 {
